@@ -76,6 +76,7 @@ def shard(args):
         if l.startswith('M '):
             wanted.add(json.loads(l[2:])['id'])
     res['cases'] = {c[0]: c for c in cases if c[0] in wanted}   # only what the parent needs to materialise failing refinements
+    res['sample'] = cases[0] if s == 0 and cases else None
     return res
 
 
@@ -125,7 +126,7 @@ def run(tier):
     ncases = sum(s['cases'] for s in parsed['S'])
     cuts = sum(s['single_cuts'] for s in parsed['S'])
     st = fw.sum_stats([s['stats'] for s in parsed['S']])
-    some = list(allcases.values())[:1]
+    some = [r['sample'] for r in results if r.get('sample')][:1] or list(allcases.values())[:1]
     for cid, cfg, ops in some:
         samples.append(hxb.case_to_json(cid, cfg, [(o[0], o[1][:300] if o[1] else o[1]) for o in ops]))
     cov = {'evaluations': runs, 'distinct_nontrivial': cuts + ncases,
